@@ -276,6 +276,21 @@ def expected_layout(S, cfg):
     return dict(edges=e, centers=[(a + c) / 2 for a, c in zip(e[:-1], e[1:])], delta=d, sl=sl)
 
 
+def documented_span(cfg, bw_hz):
+    """Width (Hz) of the region where the documented unit-gain response exceeds the support threshold."""
+    eps = 5e-4
+    if cfg["cls"] == "gabor":
+        B = math.sqrt(math.pi) / 2 if cfg["erb"] else math.sqrt(0.3 * math.log(10))
+        # sigma (in 1/Hz units) = B / (bw/2); half-width = sqrt(-2 ln eps) / sigma
+        return 2 * math.sqrt(-2 * math.log(eps)) * (bw_hz / 2) / B
+    n = cfg["order"]
+    if cfg["erb"]:
+        a = bw_hz * 2 ** (2 * n - 1) * math.factorial(n - 1) ** 2 / (math.factorial(2 * n - 2) * 2 * math.pi)
+    else:
+        a = bw_hz / (2 * math.sqrt(2 ** (1 / n) - 1))
+    return 2 * a * math.sqrt(eps ** (-2 / n) - 1)
+
+
 def is_valid(cfg):
     he = eff_high(cfg)
     if not (0 <= cfg["low"] < he <= Fraction(cfg["rate"]) / 2):
@@ -349,9 +364,9 @@ def check_bank(ctx, F, S, np, cfg, bad, deep=True):
         span = sup[i][1] - sup[i][0]
         narrow = span < rate / 2
         if cfg["cls"] in ("gabor", "gammatone"):
-            # also judged by the DOCUMENTED edge spacing, so that a bank whose reported supports_hz
-            # is itself wrong cannot exempt itself from the gain / ERB / L2 clauses
-            narrow = narrow or 8 * (lay["edges"][i + 1] - lay["edges"][i]) < rate / 2
+            # also judged by the DOCUMENTED support width (peak-normalised formulas), so that a bank whose
+            # reported supports_hz is itself wrong cannot exempt itself from the gain / ERB / L2 clauses
+            narrow = narrow or documented_span(cfg, lay["edges"][i + 1] - lay["edges"][i]) < rate / 2
         ctx.count("search:%s:%s" % (cfg["cls"], "narrow" if narrow else "wide"))
         if cfg["cls"] in ("tri", "fbank"):
             check_triangle(ctx, np, S, cfg, bank, i, [sup[i][0], cen[i], sup[i][1]], chk)
